@@ -46,7 +46,12 @@ if [ $need_plain = 1 ] || [ $need_race = 1 ]; then
     mv $OUT/mosssim-race.tmp $OUT/mosssim-race
   fi
   cp $S/rewrite.log $OUT/rewrite.log
-  # keep the cache small: drop all but the 6 newest trees
-  ls -1dt $V/.cache/bin/*/ 2>/dev/null | tail -n +7 | xargs -r rm -rf
+  # keep the cache small: drop trees beyond the 40 newest that have not been used for 3 hours
+  # (a concurrent check may still be running from an older one)
+  touch $OUT
+  ls -1dt $V/.cache/bin/*/ 2>/dev/null | tail -n +41 | while read d; do
+    [ -n "$(find "$d" -maxdepth 0 -mmin +180 2>/dev/null)" ] && rm -rf "$d"
+  done
 fi
+touch $OUT 2>/dev/null
 echo $OUT
